@@ -156,6 +156,11 @@ class Gen(object):
                 st["Resource"] = FN_PREFIX + self.task_fn()
                 if r.random() < 0.25:
                     st["Parameters"] = self.template_for(doc)
+                elif r.random() < 0.2:
+                    # the "long form" of the same call: the function is named in Parameters, the result comes wrapped in metadata
+                    st["Parameters"] = {"FunctionName": st["Resource"], "Payload.$": "$"}
+                    st["Resource"] = "arn:aws:states:local::rpcmessage:invoke"
+                    self.features.add("long-form-invoke")
                 if r.random() < 0.2:
                     st["ResultSelector"] = {"sel.$": "$", "c": 1}
                     self.features.add("ResultSelector")
